@@ -7,10 +7,11 @@ server-side paths of tonic-web/src/call.rs branch by branch:
 
 * `RequestKind::new`, `is_grpc_web`, `Encoding::from_content_type/from_accept`, the four
   arms of `GrpcWebService::call`  → `classify`
-* `coerce_request` (header rewriting)                           → `coerceHeaders`
+* `coerce_request` (header rewriting)                           → `coerceRequest`
 * `GrpcWebCall::poll_decode` + `decode_chunk` (request body)     → `reqRun`
 * `GrpcWebCall::poll_encode`, `make_trailers_frame`, `encode_trailers` (response body) → `respRun`
-* `coerce_response` / `Encoding::to_content_type`                → `toContentType`
+* `coerce_response` / `Encoding::to_content_type`                → `coerceResponse` / `toContentType`
+* `GrpcWebService::call` + `ResponseFuture::poll` as a whole     → `serve` / `respond`
 
 A body is the list of events the inner `http_body::Body` will produce (the end of the list is
 `Ready(None)`); `pending` is an explicit event.  The consumer polls until the first `None` or
@@ -135,6 +136,96 @@ def reqRun (enc : Enc) (evs : List BodyEv) : List Out :=
   match enc with
   | .base64 => reqText [] evs
   | .none => reqBin evs
+
+/-! ### header maps, `coerce_request`, `coerce_response` (service.rs)
+
+A header map is the list of its entries in the order they were appended (`TMap`); all that is
+ever observed of it is `get_all` per name (`TMap.getAll`). -/
+
+/-- `HeaderMap::get`: the first value stored under the name. -/
+def hget (k : Bytes) (h : List Pair) : Option Bytes := (TMap.getAll k h).head?
+
+/-- `HeaderMap::remove`: all values of the name go. -/
+def hremove (k : Bytes) (h : List Pair) : List Pair := h.filter (fun p => !(p.1 == k))
+
+/-- `HeaderMap::insert`: the name keeps exactly this value. -/
+def hinsert (k v : Bytes) (h : List Pair) : List Pair := hremove k h ++ [(k, v)]
+
+def CONTENT_TYPE : Bytes := str "content-type"
+def CONTENT_LENGTH : Bytes := str "content-length"
+def TE : Bytes := str "te"
+def ACCEPT : Bytes := str "accept"
+def ACCEPT_ENCODING : Bytes := str "accept-encoding"
+def TRAILERS : Bytes := str "trailers"
+def IDENTITY_DEFLATE_GZIP : Bytes := str "identity,deflate,gzip"
+
+/-- `coerce_request`, the header part: `content-length` removed, then `content-type`, `te` and
+`accept-encoding` inserted, in this order. -/
+def coerceRequest (h : List Pair) : List Pair :=
+  hinsert ACCEPT_ENCODING IDENTITY_DEFLATE_GZIP
+    (hinsert TE TRAILERS
+      (hinsert CONTENT_TYPE GRPC_CONTENT_TYPE
+        (hremove CONTENT_LENGTH h)))
+
+/-- `coerce_response`, the header part: `content-type` of the accepted form inserted; nothing
+else is touched (the layer adds no CORS / grpc-web specific header of its own). -/
+def coerceResponse (accept : Enc) (h : List Pair) : List Pair :=
+  hinsert CONTENT_TYPE (toContentType accept) h
+
+/-! ### `GrpcWebService::call` and `ResponseFuture::poll` as a whole -/
+
+inductive Ver where
+  | h09 | h10 | h11 | h2 | h3
+  deriving DecidableEq, Repr
+
+/-- `http::request::Parts` as far as anything can observe them: method, version, uri, the
+header map and whether the caller's marker is still in the `Extensions`. -/
+structure Parts where
+  method : Bytes
+  version : Ver
+  uri : Bytes
+  headers : List Pair
+  ext : Bool
+  deriving DecidableEq, Repr
+
+/-- `Body::new(b)` around a body (the pass-through arm, and `tonic::body::Body` in general):
+every frame is handed on as it is. -/
+abbrev passRun : List BodyEv → List Out := reqBin
+
+/-- What `call` does with a request. -/
+inductive Served where
+  /-- answered at once; the inner service is not called -/
+  | immediate (status : Nat)
+  /-- the inner service is called with these parts; draining the request body it gets `body`;
+  `accept = some a`: its response is translated to form `a`, `none`: handed back as it is -/
+  | inner (p : Parts) (body : List Out) (accept : Option Enc)
+  deriving DecidableEq, Repr
+
+def actionOf (p : Parts) : Action :=
+  classify p.method (p.version == Ver.h2) (hget CONTENT_TYPE p.headers) (hget ACCEPT p.headers)
+
+/-- `GrpcWebService::call`: `RequestKind::new` on (headers, method, version), then the four arms. -/
+def serve (p : Parts) (body : List BodyEv) : Served :=
+  match actionOf p with
+  | .web e a => .inner { p with headers := coerceRequest p.headers } (reqRun e body) (some a)
+  | .status c => .immediate c
+  | .pass => .inner p (passRun body) none
+
+structure Resp where
+  status : Nat
+  headers : List Pair
+  body : List Out
+  deriving DecidableEq, Repr
+
+/-- The response the caller of the layer gets, given what the inner service would answer
+(status, headers, body events) if it is called: `ResponseFuture::poll`. -/
+def respond (p : Parts) (reqBody : List BodyEv) (innerStatus : Nat) (innerHeaders : List Pair)
+    (innerBody : List BodyEv) : Resp :=
+  match serve p reqBody with
+  | .immediate c => { status := c, headers := [], body := [.eos] }
+  | .inner _ _ (some a) =>
+    { status := innerStatus, headers := coerceResponse a innerHeaders, body := respRun a innerBody }
+  | .inner _ _ none => { status := innerStatus, headers := innerHeaders, body := passRun innerBody }
 
 /-! ### observations -/
 
